@@ -153,6 +153,9 @@ MODEL_CFGS = {
             # flushing the answer queue (again) when the frame has been confirmed loses answers that arrived together
             # with the confirmation: the seeded change C16b at model level
             ("MC_SerialDriver", "SerialDriver_plain_fac.cfg", "ExactPairing"),
+            # an answer that belongs to nobody can only be mistaken for one's own if it arrived inside one's own transaction;
+            # flushing before waiting for the lock instead of after (seeded C16f) must break that
+            ("MC_SerialDriver", "SerialDriver_stale_own.cfg", None), ("MC_SerialDriver", "SerialDriver_stale_called.cfg", "OwnWindow"),
             ("MC_HassebDriver", "HassebDriver_plain.cfg", None)],
     "c17": [("MC_AsyncDriver", "AsyncDriver_loss.cfg", None), ("MC_AsyncDriver", "AsyncDriver_limit.cfg", None),
             ("MC_SerialDriver", "SerialDriver_silent.cfg", None), ("MC_SerialDriver", "SerialDriver_cancel_safe.cfg", None),
